@@ -330,6 +330,25 @@ func c02cases(thorough bool, emit func(c02case)) {
 			}
 		}
 	}
+	// A4 (thorough): lists of length 4 over the tokens that change the parser state (keys, dangling, containers)
+	if thorough {
+		small := []string{`"k"`, `""`, "nil", "1", "Attr", "Attrs{2}", "Group(flat)", "Group(dangling)", "42(in key position)", "nil Attr"}
+		var rec4 func(prefix []string)
+		rec4 = func(prefix []string) {
+			if len(prefix) == 4 {
+				for _, e := range []string{"Info", "Error", "Println(args only)", "PrintContext", "slog.Info [default logger]"} {
+					for _, f := range formats {
+						emit(c02case{Layer: "A4-args", Entry: e, MsgQ: qk("m"), Args: append([]string{}, prefix...), Format: f, Level: int(slog.TraceLevel), Dest: 1})
+					}
+				}
+				return
+			}
+			for _, t := range small {
+				rec4(append(prefix, t))
+			}
+		}
+		rec4(nil)
+	}
 	// B: messages x entries x formats x logger levels x destination sets
 	levels := []slog.Level{slog.OffLevel, slog.ErrorLevel, slog.InfoLevel, slog.TraceLevel, slog.AlwaysLevel}
 	for _, m := range c02msgs {
